@@ -1580,12 +1580,18 @@ def signature(c, status, msg):
     Every key needs the structural precondition of that defect (computed from the case text) AND its symptom."""
     f = c.meta.get('flags') or {}
     spec = c.meta.get('pyspec') or ('?',)
+    # all_same_offsets indexes offsets[-1] of a zero-length list array: IndexError instead of an (empty) answer
+    if 'IndexError' in msg and 'index -1 is out of bounds for axis 0 with size 0' in msg and \
+            all(a.startswith(('(arr (la', '(arr (lo', '(arr (np', '(arr (ix', '(arr (reg', '(arr (bym', '(arr (bim', '(arr (unm', '(val'))
+                for a in c.layouts) and any(' () ' in a for a in c.layouts):
+        return 'broadcast-all-same-offsets-empty-indexerror'
     if c.args[0].startswith('proj'):
         return None                      # ak.broadcast_arrays is outside the property's statement: never a finding
     if spec[0] != 'ok':
         return None                      # the other open findings are wrong answers / refusals on inputs that should work
     # D6: a size-1 regular dimension is not repeated zero times outside the NumPy fast path
-    if f.get('size01') and status == 'err' and 'cannot broadcast RegularArray of size' in msg:
+    if (f.get('size01') or f.get('size0')) and status == 'err' and 'cannot broadcast RegularArray of size' in msg:
+        # (also a size-0 regular dimension next to a zero-length variable one, which the library turns into size 1)
         return 'regular-size1-to-size0'
     # D4: n-d NumpyArray leaves of different rank below a variable-length list go to NumPy (right-aligned)
     if f.get('ndnumpy_inner') and (status == 'ok' or 'operands could not be broadcast' in msg or CHECKLEN.search(msg)
@@ -1670,6 +1676,12 @@ def run(cases, tier, rng):
         if c.args[0].startswith('proj'):
             if vk == 'agree':
                 verdicts['agree-corr-only'] = verdicts.get('agree-corr-only', 0) + 1
+            elif (vk == 'modeldiff' or vk == 'bad') and signature(c, st, msg) == 'broadcast-all-same-offsets-empty-indexerror':
+                # the registered IndexError of all_same_offsets on zero-length list arrays, reached through
+                # ak.broadcast_arrays: the same known finding, not a broken correspondence
+                verdicts['known'] = verdicts.get('known', 0) + 1
+                add_finding('viol', c, 'broadcast_arrays: IndexError of all_same_offsets on zero-length list arrays',
+                            'broadcast-all-same-offsets-empty-indexerror')
             elif vk == 'modeldiff' or vk == 'bad':
                 verdicts[vk] = verdicts.get(vk, 0) + 1
                 per['corr:broadcast_arrays'] = False
